@@ -5,7 +5,7 @@ from ..core import sym
 from ..core.expand import u, call_name, get_arg, bind_args, Expander, is_marker, phi_alternatives
 from ..core.loader import Inconclusive, const_value, parents
 from .common import (returns, all_nodes, callee, strip_shape, calls_in, guards_of, guard_dnf, stmt_of, loops_around, role_of, kw,
-                     is_true, find_assignments, literal_dnf, is_none_test)
+                     is_true, find_assignments, literal_dnf, is_none_test, in_loop)
 from . import sentinel
 
 EXPLANATION = (
@@ -541,7 +541,17 @@ def rule_midpoints(ck):
     ck.clause('D5')
     w = P.func(G + '_build_bitmask_vec')
     ex = Expander(P, w)
-    for var, c, rp, re_, epts, eedges in _coord_calls(P, w):
+    located = _coord_calls(P, w)
+    if not located:
+        # the slots of the index map are not computed by the binning kernel at all
+        st = [n for n in all_nodes(w) if isinstance(n, ast.Assign) and isinstance(n.targets[0], ast.Subscript) and isinstance(n.targets[0].slice, ast.Tuple)
+              and in_loop(n, w.node) is not None]
+        why = ('cells are put into the bounding-box grid by `%s`, not by binning their midpoints on the lattice edges: a rank among the '
+               'coordinates that occur, or any position computed from the origins alone, puts the cells behind an empty column or row of '
+               'the box into the wrong slot' % (u(ex.expand(st[0].targets[0].slice))[:110] if st else 'no binning call'))
+        ck.ob('C01-D5.hash', w, 'cells are located by their midpoints', st[0] if st else w.node).fail(why)
+        ck.ob('C01-D5.edges', w, 'edges of the bounding-box grid', st[0] if st else w.node).fail('no binning of the cells on cleaner_range edges')
+    for var, c, rp, re_, epts, eedges in located:
         o = ck.ob('C01-D5.hash', w, c, c)
         t = u(epts)
         if 'centroid' in t and 'origin' not in t:
